@@ -633,7 +633,7 @@ func setupTunnel(e *Env, o core.RunOpts) error {
 		lazy[v.Val.String()] = []int{0, 0, 100}[e.Ch.Intn("cfg.feeder.lazy", 3)]
 	}
 	e.Actors = append(e.Actors,
-		&OracleActor{MaxOpen: 3, ReqRate: map[bool]int{true: 250, false: 0}[o.Prop == "C11"], Scripts: []int{scriptEcho, scriptSimple}, NumDS: len(dss), ActivateP: 1000, ReactivateP: 300,
+		&OracleActor{MaxOpen: 3, ReqRate: map[bool]int{true: 250, false: 0}[o.Prop == "C11" || o.Prop == "C05"], Scripts: []int{scriptEcho, scriptSimple}, NumDS: len(dss), ActivateP: 1000, ReactivateP: 300,
 			TSSEncoder: true, Requesters: voters, PolicyW: []int{70, 20, 10, 0, 0, 0, 0}},
 		&StakeActor{Voters: voters, Rate: 0, Denoms: []string{"uusd"}, VaultKeys: []string{"vaultA"}},
 		&VoteActor{Voters: voters, Signals: signals[:4+e.Ch.Intn("cfg.tunnel.nsignals", 3)], Rate: 150 + e.Ch.Intn("cfg.vote.rate", 300)},
